@@ -124,12 +124,12 @@ fn variants(m: &SchemaModel, base: &Doc) -> Vec<(String, Doc, bool)> {
     out
 }
 
-pub fn build_project(m: &SchemaModel, rng: &mut Rng) -> (ProjectCase, Vec<String>) {
+pub fn build_project(m: &SchemaModel, rng: &mut Rng) -> (ProjectCase, BTreeSet<String>) {
     let cfg = GenCfg::default();
     let pc = gen_project_cfg(rng, m, false);
     let config = pc.yaml("SCHEMA_FILE", "ops/*.graphql", &[("schemaOutput", "out/schema.d.ts"), ("resolversOutput", "out/resolvers.d.ts")]);
     let mut docs = vec![];
-    let mut feats = vec![];
+    let mut feats: BTreeSet<String> = BTreeSet::new();
     let n_valid = 2;
     let mut bases = vec![];
     for i in 0..n_valid {
@@ -141,7 +141,19 @@ pub fn build_project(m: &SchemaModel, rng: &mut Rng) -> (ProjectCase, Vec<String
     for (k, (class, d, exempt)) in variants(m, &bases[0]).into_iter().enumerate() {
         docs.push(DocCase { name: format!("f{k}.graphql"), text: nvh::render::doc_text(&d), fault: class, exempt });
     }
-    let json_text = J::from_value(&introspection_json(m)).text();
+    let mut j = J::from_value(&introspection_json(m));
+    if rng.coin() {
+        // an introspection result that lists neither the `__*` types nor some of the built-in scalars (the reader does
+        // not need them; the CLI adds the missing built-in scalars)
+        crate::json::prune_types(&mut j, &|n| n.starts_with("__"));
+        let mut names: Vec<&str> = crate::json::BUILTIN_SCALAR_NAMES.to_vec();
+        rng.shuffle(&mut names);
+        let k = 1 + rng.below(5);
+        let dropped: Vec<String> = names.iter().take(k).map(|s| s.to_string()).collect();
+        crate::json::prune_types(&mut j, &|n| dropped.iter().any(|d| d == n));
+        feats.insert(format!("json-omits-builtin-scalars:{k}"));
+    }
+    let json_text = j.text();
     (ProjectCase { sdl: m.sdl(), json_text, config, docs }, feats)
 }
 
@@ -386,6 +398,29 @@ pub fn run_project(args: &Args, cli: &str, rep: &mut Report, pc: &ProjectCase, t
             let emitted = |f: &BTreeMap<String, Vec<u8>>| f.keys().filter(|k| k.ends_with(".ts")).cloned().collect::<BTreeSet<_>>();
             if emitted(&fa) != emitted(&fb) {
                 rep.fail("O", "generate:file-set", &format!("emitted files differ: {:?} vs {:?}", emitted(&fa), emitted(&fb)), pc.to_json(None));
+            }
+            // K (real CLI vs expectation): the declaration order of the JSON route's schema file is the order of
+            // `__schema.types` followed by the missing built-in scalars in the order Int Float String Boolean ID
+            if let (Some(bytes), Some(j)) = (fb.get("out/schema.d.ts"), crate::json::parse_text(&pc.json_text)) {
+                rep.k_cases += 1;
+                let mut expected = crate::json::type_names(&j);
+                for b in crate::json::BUILTIN_SCALAR_NAMES {
+                    if !expected.iter().any(|n| n == b) {
+                        expected.push(b.to_string());
+                    }
+                }
+                if let Ok(tree) = nvh::tsparse::parse_file(&String::from_utf8_lossy(bytes)) {
+                    let observed: Vec<String> = tree
+                        .args()
+                        .iter()
+                        .filter(|st| st.head() == Some("type"))
+                        .filter_map(|st| st.args().get(1).and_then(|n| n.as_str()).map(|n| n.to_string()))
+                        .filter(|n| expected.contains(n))
+                        .collect();
+                    if observed != expected {
+                        rep.fail("K", "route-json-order-cli", &format!("order of the top-level type aliases of the JSON route's schema file {:?} ≠ order of __schema.types + missing built-in scalars {:?}", observed, expected), pc.to_json(None));
+                    }
+                }
             }
             for rel in emitted(&fa).intersection(&emitted(&fb)) {
                 rep.o_cases += 1;
